@@ -1958,6 +1958,41 @@ class SampleClock:
     today = utcnow = now
 
 
+class SampleRandom:
+    """`random` for the sample evaluator: one possible outcome of every draw (shuffle rotates the list by one place, by two
+    on the next call, ...).  What a rule concludes from it must hold for every outcome of the draws"""
+    __pe_methods__ = ("seed", "shuffle", "random", "Random", "sample", "getstate", "setstate")
+
+    def __init__(self):
+        self.calls = 0
+
+    def seed(self, *a, **k):
+        return None
+
+    def shuffle(self, xs):
+        self.calls += 1
+        if isinstance(xs, list) and len(xs) > 1:
+            k = self.calls % len(xs) or 1
+            xs[:] = xs[k:] + xs[:k]
+
+    def sample(self, xs, k):
+        xs = list(xs)
+        self.shuffle(xs)
+        return xs[:k]
+
+    def random(self):
+        return 0.5
+
+    def Random(self, *a, **k):
+        return self
+
+    def getstate(self):
+        return ("state", self.calls)
+
+    def setstate(self, st):
+        return None
+
+
 class SamplePackage:
     """the `tucan` package object for the sample evaluator: only its version string"""
     __pe_attrs__ = ("__version__",)
